@@ -2,6 +2,7 @@ package main
 
 import (
 	"fmt"
+	"os"
 	"sort"
 	"strings"
 
@@ -25,5 +26,83 @@ func cmdFuncs(args []string) int {
 	for _, o := range out {
 		fmt.Println(o)
 	}
+	return 0
+}
+
+// cmdAddNames: `gocv addnames <module>` inserts a positional `names` clause into every function contract of the
+// module's contract files that has none, so that renaming a parameter in the code does not unbind the contract.
+func cmdAddNames(args []string) int {
+	m := modules[args[0]]
+	p, err := loadModule(m, []string{"./..."})
+	if err != nil {
+		fmt.Println(err)
+		return 2
+	}
+	specs, err := loadSpecs(p)
+	if err != nil {
+		fmt.Println(err)
+		return 2
+	}
+	funcs := findFuncs(p)
+	byFile := map[string]map[string]string{} // file -> "//@ func <text>" -> names line
+	for key, fc := range specs.Funcs {
+		if len(fc.Names) > 0 || fc.IsIface || !strings.HasPrefix(fc.File, repoRoot()) {
+			continue
+		}
+		fn := funcs[key]
+		if fn == nil || len(fn.Params) == 0 || fn.Parent() != nil {
+			continue
+		}
+		var ns []string
+		ok := true
+		for _, prm := range fn.Params {
+			if prm.Name() == "" || prm.Name() == "_" {
+				ok = false
+			}
+			ns = append(ns, prm.Name())
+		}
+		if !ok {
+			continue
+		}
+		if byFile[fc.File] == nil {
+			byFile[fc.File] = map[string]string{}
+		}
+		byFile[fc.File][key] = strings.Join(ns, ", ")
+	}
+	n := 0
+	for file, ks := range byFile {
+		data, err := os.ReadFile(file)
+		if err != nil {
+			continue
+		}
+		lines := strings.Split(string(data), "\n")
+		var out []string
+		done := map[string]bool{}
+		pkgName := ""
+		for _, ln := range lines {
+			out = append(out, ln)
+			t := strings.TrimSpace(ln)
+			if strings.HasPrefix(t, "package ") {
+				pkgName = strings.TrimSpace(strings.TrimPrefix(t, "package "))
+			}
+			if strings.HasPrefix(t, "//@ pkgalias ") {
+				pkgName = strings.TrimSpace(strings.TrimPrefix(t, "//@ pkgalias "))
+			}
+			if strings.HasPrefix(t, "//@ func ") {
+				k := strings.TrimSpace(strings.TrimPrefix(t, "//@ func "))
+				key := k
+				if strings.HasPrefix(k, "(") || !strings.Contains(strings.SplitN(k, "(", 2)[0], ".") {
+					key = pkgName + "." + k
+				}
+				if names, ok := ks[key]; ok && !done[key] {
+					done[key] = true
+					out = append(out, "//@   names "+names)
+					n++
+				}
+			}
+		}
+		os.WriteFile(file, []byte(strings.Join(out, "\n")), 0o644)
+	}
+	fmt.Println("names clauses added:", n)
 	return 0
 }
